@@ -10,6 +10,10 @@ CLAIMS = {
          "Renderings (short notation / JSON blocks) are checked by parsing them back in the harness; their Lean statement is partial.", "8/C02"),
  'C04': ("Lean theorems about the model of parse_teal's four passes + correspondence of block structure, ordered successor/predecessor lists, retained set with /repo + check that the block trace of every concrete execution of the Lean AVM semantics is a matched walk of the tool's graph",
          "CFG construction is hand-modelled (Cfg.lean) and tied by differential execution on corpus + generated layouts.", "8/C04"),
+ 'C05': ("Lean model of subroutine discovery, caller/return-point tables and function construction (Cfg.lean, Function.lean) tied by correspondence of the subroutine tables at contract and function level; independent executable closure oracle (subroutines = callsub targets, blocks = intraprocedural closure, exits, call sites, return points) on the real tool's output",
+         "The C05 statements are checked on the tool's output by the executable predicate (harness/structural.py) and by model/tool agreement; Lean theorems for the closure characterisation are in progress (the partition and edge-order theorems of C04 are shared).", "8/C05"),
+ 'C11': ("Lean theorems: regenerated opcode table (class, printed form, pops, pushes, version, mode of every sample built by the real parse_line) equals the committed spec table (kernel decide); immediate families (dig/cover/uncover/bury/popn/dupn 0..255, frame ops, pushints/pushbytess/switch/match 0..8, proto) satisfy the AVM formulas; one-step simulation of construct_stack_ast against an instrumented concrete stack; + correspondence of the per-instruction operand ASTs on straight-line sequences over the whole opcode table",
+         "Spec table is a reviewed snapshot (no AVM spec file available offline); known deviations F13/F14 are explicit in the theorem.", "8/C11"),
  'C06': ("Lean theorems: exact true/false sets for all six operators and every constant, exact set algebra, index<size coupling, forward/backward flow soundness for any solution; correspondence of stored contexts; oracle over (size,index) x environments",
          "Leaf layer proved for the field as first operand; constant-first ordered comparisons are known finding F02.", "8/C06"),
  'C07': ("Lean theorems: kernel-checked counter-example to the full statement (F01), per-dimension exactness for Pay/Axfer under TypeEnum checks and Update/Delete under OnCompletion checks, flow soundness; correspondence of stored kind sets; oracle over (TypeEnum,OnCompletion,ApplicationID) valuations",
